@@ -83,7 +83,7 @@ def run(ctx, rep):
     rep.guarded("R05-VORDER", lambda: r_vorder(sh, rep))
     rep.guarded("R05-MEASURE", lambda: r_measure(sh, rep))
     from . import c04
-    rep.rule("R19-COST", "every evaluation entry point reports cost = (the budget its machine was created with) - (what the machine has left) (shared with C19)", floor=6)
+    rep.rule("R19-COST", "every evaluation entry point reports cost = (the budget its machine was created with) - (what the machine has left) (shared with C19)", floor=3)
 
     def cost():
         from . import c19
@@ -416,6 +416,14 @@ def r_result(sh, rep):
             rep.touched(A, q)
             mk = [c for c in calls_in(f["body"]) if (call_name(c) or "").startswith("Machine::new")]
             er = [c for c in calls_in(f["body"]) if call_name(c) == "EvalResult::new"]
+            if not mk and not er:
+                # an entry point may delegate to a sibling (`self.eval_version(initial_budget, ..)`): the budget parameter
+                # must be handed over as it is
+                dl = [c for c in calls_in(f["body"]) if c["k"] == "MethodCall" and c["m"].startswith("eval") and sh.nsrc(A, c["recv"]) == "self"]
+                bparams = [i["pat"].get("name") for i in f["sig"]["inputs"] if isinstance(i.get("pat"), dict) and "ExBudget" in (i.get("ty") or "")]
+                okd = len(dl) == 1 and bparams and any(sh.nsrc(A, a) == bparams[0] for a in dl[0]["args"])
+                rep.check(bool(okd), "R05-RESULT", q + "#delegates", sh.loc(A, f), "%s neither runs a machine nor hands its budget parameter unchanged to one sibling entry point" % q, why_ok="delegates to %s with its own budget" % (dl[0]["m"] if dl else "?"))
+                continue
             if len(mk) != 1 or len(er) != 1:
                 rep.bad("R05-RESULT", q + "#shape", sh.loc(A, f), "expected one Machine::new* and one EvalResult::new call")
                 continue
